@@ -105,3 +105,8 @@ Qed.
 
 Lemma firstn_in {A} n (l : list A) x : In x (firstn n l) -> In x l.
 Proof. intros H. rewrite <- (firstn_skipn n l). apply in_or_app. left. exact H. Qed.
+
+(* unfolding one step of a fold without asking the kernel to compare the folded terms
+   (fuelled functions inside the fold make that conversion explode) *)
+Lemma fold_left_cons {A B} (f : A -> B -> A) x l a : fold_left f (x :: l) a = fold_left f l (f a x).
+Proof. reflexivity. Qed.
